@@ -20,6 +20,7 @@ type Machine struct {
 	reflectPackage     *ssa.Package
 	runtimeErrorString types.Type
 
+	fnInfos     sync.Map // *ssa.Function -> *fnInfo
 	mu          sync.Mutex
 	fakeMethods map[string]*ssa.Function
 	fakeNames   map[*ssa.Function]string
@@ -54,7 +55,7 @@ func Load(dir string, env []string, patterns ...string) (*Machine, error) {
 	}
 	prog, spkgs := ssautil.AllPackages(pkgs, ssa.InstantiateGenerics)
 	prog.Build()
-	m := &Machine{prog: prog, sizes: &types.StdSizes{WordSize: 8, MaxAlign: 8}, maxDepth: 1500, maxSteps: 50_000_000}
+	m := &Machine{prog: prog, sizes: &types.StdSizes{WordSize: 8, MaxAlign: 8}, maxDepth: 3000, maxSteps: 50_000_000}
 	for _, p := range spkgs {
 		if p != nil {
 			m.pkgs = append(m.pkgs, p)
